@@ -13,5 +13,5 @@ GInit == Init /\ obj.flow = GFlow /\ hist = <<>> /\ done = FALSE
 \* the final step exists only to print the finished behaviour exactly once (also in -simulate mode)
 GNext == \/ Len(hist) < Depth /\ Next /\ Allowed /\ hist' = Append(hist, act') /\ UNCHANGED done
          \/ Len(hist) = Depth /\ ~done /\ done' = TRUE /\ UNCHANGED <<vars, hist>>
-            /\ PrintT(ToJson([flow |-> obj.flow, kt |-> obj.kt, size |-> obj.size, hist |-> hist]))
+            /\ PrintT(ToJson([flow |-> obj.flow, kt |-> obj.kt, size |-> obj.size, kk0 |-> obj.kk0, hist |-> hist]))
 =============================================================================
